@@ -1,6 +1,7 @@
 package c03
 
 import (
+	"fmt"
 	"strings"
 	"time"
 
@@ -86,6 +87,8 @@ func matrixRows(shas func(src string) string) []row {
 		row = "large-then-small-" + strings.ToLower(kind)
 		add(row, nil, []string{kind, "tile38.call('set', KEYS[1], 'a', 'string', string.rep('L', 40000)); return tile38.call('set', KEYS[1], 'a', 'string', 'small')", "1", k(row)})
 	}
+	// a fence filtered by a script given as text (by sha: see shaFenceRow)
+	add("setchan-whereeval", nil, []string{"SETCHAN", "mc:whereeval", "NEARBY", k("setchan-whereeval"), "WHEREEVAL", "return FIELDS.speed ~= nil and FIELDS.speed > tonumber(ARGV[1])", "1", "10", "FENCE", "POINT", "33", "-112", "500"})
 	// the same hook / channel set again with only its lifetime added, removed or changed
 	hk := func(name, key string, ex ...string) []string {
 		return append(append([]string{"SETHOOK", name, sinkURL("x")}, ex...), "NEARBY", key, "FENCE", "POINT", "33", "-112", "500")
@@ -106,7 +109,11 @@ func matrixRows(shas func(src string) string) []row {
 	add("pdelchan", [][]string{{"SETCHAN", "mcp:1", "NEARBY", k("pdelchan"), "FENCE", "POINT", "33", "-112", "500"}, {"SETCHAN", "mcp:2", "NEARBY", k("pdelchan"), "FENCE", "POINT", "33", "-112", "500"}}, []string{"PDELCHAN", "mcp:[1-2]"})
 	add("chan-expired", nil, []string{"SETCHAN", "mc:chan-expired", "EX", "0.2", "NEARBY", k("chan-expired"), "FENCE", "POINT", "33", "-112", "500"})
 	// scripts: each write command callable from a script × each script variant
-	type sc struct{ name, src string; args []string; setup [][]string }
+	type sc struct {
+		name, src string
+		args      []string
+		setup     [][]string
+	}
 	scripts := func(key string) []sc {
 		return []sc{
 			{"set", `return tile38.call('set', KEYS[1], 'a', 'field', 'f', ARGV[1], 'point', 3, 4)`, []string{"7"}, nil},
@@ -291,4 +298,61 @@ func matrix(ctx *core.Ctx, bin, stop string, withFlush bool) {
 		}
 	}
 	ctx.Sample(map[string]any{"matrix_row": rows[len(rows)/2].name, "final": rows[len(rows)/2].final})
+}
+
+// shaFenceRow: a channel whose fence is filtered by WHEREEVALSHA (the sha of a
+// script loaded with SCRIPT LOAD) is acknowledged; the server must start again
+// on its data directory and still have the channel. Kept apart from the matrix:
+// it is a listed finding of the pinned tree (scripts are not persisted, the
+// command is logged with the sha, and the load treats the unknown sha as fatal).
+func shaFenceRow(ctx *core.Ctx, bin string) {
+	s, err := srv.Start(srv.Opts{Bin: bin})
+	if err != nil {
+		ctx.Inconclusive("sha fence row: " + err.Error())
+		return
+	}
+	defer func() { s.Kill9() }()
+	c, err := respc.Dial(s.Addr(), 5*time.Second)
+	if err != nil {
+		ctx.Inconclusive("sha fence row: " + err.Error())
+		return
+	}
+	c.Timeout = 10 * time.Second
+	lr, err := c.Do("SCRIPT", "LOAD", "return true")
+	if err != nil || lr.IsErr() {
+		c.Close()
+		ctx.Inconclusive("sha fence row: SCRIPT LOAD failed")
+		return
+	}
+	cmd := []string{"SETCHAN", "mc:whereevalsha", "NEARBY", "m:sha", "WHEREEVALSHA", lr.Str, "0", "FENCE", "POINT", "33", "-112", "500"}
+	rp, err := c.Do(cmd...)
+	c.Do("SET", "m:sha", "a", "POINT", "33", "-112")
+	c.Close()
+	if err != nil || rp.IsErr() {
+		ctx.Count("sha_fence_row_refused", 1) // refusing the form is a consistent answer too
+		return
+	}
+	ctx.Eval(1)
+	ctx.Distinct("matrix|setchan-whereevalsha")
+	s.Term(20 * time.Second)
+	s2, err := s.Restart()
+	if err != nil {
+		ctx.Violation("restart-fails:setchan-whereevalsha", fmt.Sprintf("`SCRIPT LOAD \"return true\"` and the acknowledged %q, then SIGTERM: the server does not start on its own data directory: %v", cmd, err), map[string]any{"commands": [][]string{{"SCRIPT", "LOAD", "return true"}, cmd}})
+		return
+	}
+	defer s2.Kill9()
+	d, err := dump.Take(s2.Addr(), dump.Opts{})
+	if err != nil {
+		ctx.Inconclusive("sha fence row: " + err.Error())
+		return
+	}
+	found := false
+	for _, h := range d.Chans {
+		if h.Name == "mc:whereevalsha" {
+			found = true
+		}
+	}
+	if !found {
+		ctx.Violation("restart-diff:setchan-whereevalsha", "the acknowledged channel with a WHEREEVALSHA fence is gone after a restart", map[string]any{"command": cmd})
+	}
 }
